@@ -302,7 +302,7 @@ Section dispatch.
       cbn; try reflexivity; apply H; congruence.
   Qed.
   Lemma frame_front tls key m s :
-    (forall j, j <> key -> m !! j = get_f tls s !! j) -> frame (TFront tls key) s (set_f tls s m).
+    (forall j, j <> key -> m !! j = get_f tls s !! j) -> frame (THttpFront tls key) s (set_f tls s m).
   Proof.
     intros H. repeat split; try (destruct tls; reflexivity).
     all: intros; repeat match goal with x : lkind |- _ => destruct x | x : bool |- _ => destruct x end;
